@@ -93,7 +93,7 @@ Qed.
 Definition obs_of (r : res ztree) (goeq : bool) : rres :=
   match r with
   | Ok t => ROk t true goeq
-  | Err => RErr
+  | Err => RErr 0
   | Crash => RCrash
   end.
 
